@@ -1,9 +1,26 @@
-// Kani harnesses for unsync::cache (child module: sees private fields and fns).
+// Kani harnesses for unsync::cache (child module of unsync::cache: sees private fields and fns).
+//
+// Shape of every harness: build an ARBITRARY state satisfying the representation invariant Inv
+// directly (no API calls; real Deques::push_back_*), run ONE real operation, compare the complete
+// post-state with a short reference model ("lossy map with LRU/TinyLFU/expiry") evaluated on a
+// ghost copy of the pre-state, and re-check Inv. Concrete per harness (enumerated outside the
+// solver): number of residents n, key identities 0..n (key i at LRU position i), write-order
+// permutation, map slot placement, weight table, capacity, which expiry knobs exist, hasher.
+// Symbolic (decided by the solver for all values): values, every timestamp, the clock, ttl, tti,
+// the popularity sketch contents (hence every estimate vector), predicate masks, update weights.
+//
+// Assertion tags "Cxx[,Cyy]:" attribute a failing check to properties; untagged checks
+// (pointer validity, overflow, unwrap/expect/unreachable, unwinding) belong to C08.
 use super::*;
 use crate::common::deque::verif_deque as dq;
+use crate::common::frequency_sketch::verif_sketch as sk;
+use crate::verif_models::common::{instant_at, le};
 use std::hash::{BuildHasherDefault, Hasher};
 
 // ---------------------------------------------------------------- hashers
+pub(crate) trait HK: Hasher + Default + Clone {
+    fn h(k: u8) -> u64;
+}
 #[derive(Default, Clone)]
 pub(crate) struct IdH(u64);
 impl Hasher for IdH {
@@ -11,233 +28,855 @@ impl Hasher for IdH {
     fn write(&mut self, b: &[u8]) { if !b.is_empty() { self.0 = b[0] as u64; } }
     fn write_u8(&mut self, i: u8) { self.0 = i as u64; }
 }
-type BH = BuildHasherDefault<IdH>;
-type C = Cache<u8, u8, BH>;
+impl HK for IdH { fn h(k: u8) -> u64 { k as u64 } }
+/// every key collides
+#[derive(Default, Clone)]
+pub(crate) struct ConstH;
+impl Hasher for ConstH {
+    fn finish(&self) -> u64 { 0 }
+    fn write(&mut self, _b: &[u8]) {}
+}
+impl HK for ConstH { fn h(_k: u8) -> u64 { 0 } }
 
-pub(crate) const MAXN: usize = 4;
+// ---------------------------------------------------------------- value type
+/// `cls` selects the weight class (concrete where the shape needs concrete weights), `data` is payload.
+#[derive(Clone, Copy, PartialEq, Eq)]
+pub(crate) struct Val { pub cls: u8, pub data: u8 }
+
+type C<S> = Cache<u8, Val, BuildHasherDefault<S>>;
+type T = (u64, u32); // ghost time: seconds, nanoseconds since the harness origin
+
+pub(crate) const MAXN: usize = 4; // residents <= 3, plus one newcomer
+const YEARS_1000: u64 = 1_000 * 365 * 24 * 3600;
 
 #[derive(Clone, Copy)]
 pub(crate) struct Cfg {
-    pub n: usize,          // residents: keys 0..n, key i at LRU position i
-    pub cap: bool,         // max_capacity = Some(symbolic)
-    pub weigher: bool,     // weigher = |k,_| W[k], W symbolic
+    pub n: usize,                 // residents: keys 0..n, key i at LRU position i
+    pub cap: Option<u64>,         // concrete capacity
+    pub weigher: bool,
+    pub wt: [[u32; MAXN]; 2],     // weight table [cls][key] (used iff weigher)
     pub ttl: bool,
     pub tti: bool,
-    pub wo_rev: bool,      // write-order deque reversed w.r.t. access order
-    pub slots_rev: bool,   // map slot placement reversed
+    pub wo: [usize; MAXN],        // write-order deque = keys wo[0], wo[1], .. (used iff ttl)
+    pub slots_rev: bool,          // map slot placement reversed
+    pub tc: usize,                // 0 = all times symbolic; k>0 = concrete time class TC[k] (see below)
 }
 
-pub(crate) struct St {
-    pub c: C,
-    pub w: [u32; MAXN + 1],     // weigher table (all 1 if no weigher)
-    pub v: [u8; MAXN],          // resident values
+/// Concrete time classes (quick tier). With symbolic times the hit/expired branch of an operation
+/// merges two heap states and the comparison against the model costs 150-300 s per query; with a
+/// concrete class the branch is decided during symbolic execution. The universally quantified time
+/// claims are carried by (a) the predicate lemmas k1_* (fully symbolic, ns resolution) and (b) the
+/// thorough tier, which runs the same harnesses with tc = 0. Values, sketch contents, predicate
+/// masks stay symbolic in every class.
+#[derive(Clone, Copy)]
+pub(crate) struct Tc { pub now: T, pub ttl: T, pub tti: T, pub la: [T; MAXN], pub lm: [T; MAXN] }
+pub(crate) const TCS: [Tc; 8] = [
+    // 0: placeholder (symbolic)
+    Tc { now: (0, 0), ttl: (0, 0), tti: (0, 0), la: [(0, 0); MAXN], lm: [(0, 0); MAXN] },
+    // 1: everything live, well inside both deadlines
+    Tc { now: (100, 0), ttl: (50, 5), tti: (30, 0), la: [(80, 0), (85, 0), (90, 0), (0, 0)], lm: [(60, 0), (70, 0), (80, 0), (0, 0)] },
+    // 2: key 0 exactly ON its ttl deadline (lm0 + ttl == now, carry in the ns field), others live
+    Tc { now: (100, 0), ttl: (50, 5), tti: (30, 0), la: [(80, 0), (85, 0), (90, 0), (0, 0)], lm: [(49, 999_999_995), (70, 0), (80, 0), (0, 0)] },
+    // 3: key 0 one nanosecond BEFORE its ttl deadline
+    Tc { now: (100, 0), ttl: (50, 5), tti: (30, 0), la: [(80, 0), (85, 0), (90, 0), (0, 0)], lm: [(49, 999_999_996), (70, 0), (80, 0), (0, 0)] },
+    // 4: key 0 exactly ON its tti deadline (la0 + tti == now)
+    Tc { now: (100, 0), ttl: (50, 5), tti: (30, 0), la: [(70, 0), (85, 0), (90, 0), (0, 0)], lm: [(60, 0), (70, 0), (80, 0), (0, 0)] },
+    // 5: key 0 one nanosecond before its tti deadline
+    Tc { now: (100, 0), ttl: (50, 5), tti: (30, 0), la: [(70, 1), (85, 0), (90, 0), (0, 0)], lm: [(60, 0), (70, 0), (80, 0), (0, 0)] },
+    // 6: zero durations: everything is expired at its own insert instant
+    Tc { now: (100, 0), ttl: (0, 0), tti: (0, 0), la: [(100, 0), (100, 0), (100, 0), (0, 0)], lm: [(100, 0), (100, 0), (100, 0), (0, 0)] },
+    // 7: keys 0 and 1 expired (ttl: lm; tti: la), key 2 live; maximal durations region
+    Tc { now: (40_000_000_000, 7), ttl: (YEARS_1000, 0), tti: (YEARS_1000, 0), la: [(10, 0), (8_464_000_000, 7), (30_000_000_000, 0), (0, 0)], lm: [(5, 0), (8_464_000_000, 7), (20_000_000_000, 0), (0, 0)] },
+];
+
+pub(crate) const W1: [[u32; MAXN]; 2] = [[1; MAXN]; 2];
+
+/// ghost copy of the abstract state (pre-state, then turned into the expected post-state)
+#[derive(Clone, Copy)]
+pub(crate) struct G {
+    pub present: [bool; MAXN],
+    pub v: [Val; MAXN],
+    pub w: [u32; MAXN],
+    pub la: [T; MAXN],
+    pub lm: [T; MAXN],
+    pub ao: [u8; MAXN],
+    pub ao_n: usize,
+    pub wo: [u8; MAXN],
+    pub wo_n: usize,
+    pub now: T,
+    pub ttl: Option<T>,
+    pub tti: Option<T>,
+    pub cap: Option<u64>,
+    pub has_ttl: bool,
+    pub has_exp: bool,
+    pub weigher: bool,
+    pub wt: [[u32; MAXN]; 2],
+    pub sk_words: [u64; 4],
+    pub sk_size: u32,
+    pub sk_inc: bool,     // expected: exactly one increment(sk_hash) happened
+    pub sk_hash: u64,
 }
 
-fn any_sketch4() -> FrequencySketch {
-    crate::common::frequency_sketch::verif_sketch::any_sketch_pub::<4>()
+pub(crate) struct St<S: HK> {
+    pub c: C<S>,
+    pub g: G,
 }
 
-/// Build an arbitrary Inv-state with cfg.n residents (no API calls; real Deques::push_back_*).
-pub(crate) fn build(cfg: Cfg) -> St {
-    let mut w = [1u32; MAXN + 1];
-    if cfg.weigher {
-        w = kani::any();
+pub(crate) static mut NOW: T = (0, 0);
+pub(crate) fn now_stub() -> std::time::Instant {
+    let t = unsafe { NOW };
+    instant_at(t.0, t.1)
+}
+
+fn t_add(a: T, d: T) -> T {
+    let mut s = a.0 + d.0;
+    let mut n = a.1 + d.1;
+    if n >= 1_000_000_000 { n -= 1_000_000_000; s += 1; }
+    (s, n)
+}
+fn inst(t: T) -> Instant { Instant::new(instant_at(t.0, t.1)) }
+fn dur(t: T) -> Duration { Duration::new(t.0, t.1) }
+
+fn any_t() -> T {
+    let s: u64 = kani::any();
+    let n: u32 = kani::any();
+    kani::assume(s < (1u64 << 36) && n < 1_000_000_000);
+    (s, n)
+}
+fn any_dur() -> T {
+    let s: u64 = kani::any();
+    let n: u32 = kani::any();
+    // exactly what ensure_expirations_or_panic lets through: d <= 1000 years
+    kani::assume(n < 1_000_000_000 && (s < YEARS_1000 || (s == YEARS_1000 && n == 0)));
+    (s, n)
+}
+
+impl G {
+    pub(crate) fn expired(&self, i: usize) -> bool {
+        let mut e = false;
+        if let Some(d) = self.ttl { if self.has_ttl { e |= le(t_add(self.lm[i], d), self.now); } }
+        if let Some(d) = self.tti { e |= le(t_add(self.la[i], d), self.now); }
+        e
     }
-    let wt = w;
-    let weigher: Option<Weigher<u8, u8>> = if cfg.weigher {
-        Some(Box::new(move |k: &u8, _v: &u8| wt[*k as usize]))
+    pub(crate) fn weigh(&self, k: usize, v: Val) -> u32 {
+        if self.weigher { self.wt[(v.cls & 1) as usize][k] } else { 1 }
+    }
+    pub(crate) fn total_weight(&self) -> u64 {
+        let mut s = 0u64;
+        let mut i = 0;
+        while i < MAXN { if self.present[i] { s += self.w[i] as u64; } i += 1; }
+        s
+    }
+    pub(crate) fn count(&self) -> u64 {
+        let mut s = 0u64;
+        let mut i = 0;
+        while i < MAXN { if self.present[i] { s += 1; } i += 1; }
+        s
+    }
+    fn remove_from(order: &mut [u8; MAXN], n: &mut usize, k: u8) {
+        let mut out = [255u8; MAXN];
+        let mut m = 0;
+        let mut i = 0;
+        while i < MAXN { if i < *n && order[i] != k { out[m] = order[i]; m += 1; } i += 1; }
+        *order = out;
+        *n = m;
+    }
+    pub(crate) fn remove(&mut self, k: usize) {
+        self.present[k] = false;
+        Self::remove_from(&mut self.ao, &mut self.ao_n, k as u8);
+        Self::remove_from(&mut self.wo, &mut self.wo_n, k as u8);
+    }
+    pub(crate) fn touch_ao(&mut self, k: usize) {
+        Self::remove_from(&mut self.ao, &mut self.ao_n, k as u8);
+        self.ao[self.ao_n] = k as u8;
+        self.ao_n += 1;
+    }
+    pub(crate) fn touch_wo(&mut self, k: usize) {
+        if self.has_ttl {
+            Self::remove_from(&mut self.wo, &mut self.wo_n, k as u8);
+            self.wo[self.wo_n] = k as u8;
+            self.wo_n += 1;
+        }
+    }
+}
+
+/// Build an arbitrary Inv-state with cfg.n residents.
+pub(crate) fn build<S: HK>(cfg: &Cfg) -> St<S> {
+    let n = cfg.n;
+    let has_exp = cfg.ttl || cfg.tti;
+    let tc = TCS[cfg.tc];
+    let sym = cfg.tc == 0;
+    let now = if sym { any_t() } else { tc.now };
+    let ttl = if cfg.ttl { Some(if sym { any_dur() } else { tc.ttl }) } else { None };
+    let tti = if cfg.tti { Some(if sym { any_dur() } else { tc.tti }) } else { None };
+    let wt = cfg.wt;
+    let weigher: Option<Weigher<u8, Val>> = if cfg.weigher {
+        Some(Box::new(move |k: &u8, v: &Val| wt[(v.cls & 1) as usize][*k as usize]))
     } else {
         None
     };
-    let max_capacity: Option<u64> = if cfg.cap { Some(kani::any()) } else { None };
-    let mut c: C = Cache {
-        max_capacity,
+    let sketch = sk::any_sketch_pub::<4>();
+    sk::assume_sizing_inv_pub::<4>(&sketch);
+    let (sk_words, sk_size) = sk::snapshot4(&sketch);
+    // clock: `Instant::now` is stubbed (now_stub) to the symbolic reading NOW for the Kani run;
+    // the native replay (where stubs do not apply) uses the crate's own mock clock instead.
+    unsafe { NOW = now; }
+    let clock = if has_exp && cfg!(verif_real_map) { Some(crate::common::time::clock::verif_clock::mock_at(instant_at(now.0, now.1)).0) } else { None };
+    let mut c: C<S> = Cache {
+        max_capacity: cfg.cap,
         entry_count: 0,
         weighted_size: 0,
-        cache: crate::verif_models::kani_map::HashMap::with_capacity_and_hasher(0, BH::default()),
-        build_hasher: BH::default(),
+        cache: HashMap::with_capacity_and_hasher(0, Default::default()),
+        build_hasher: Default::default(),
         weigher,
         deques: Default::default(),
-        frequency_sketch: any_sketch4(),
+        frequency_sketch: sketch,
         frequency_sketch_enabled: true,
-        time_to_live: None,
-        time_to_idle: None,
-        expiration_clock: None,
+        time_to_live: ttl.map(dur),
+        time_to_idle: tti.map(dur),
+        expiration_clock: clock,
     };
-    let v: [u8; MAXN] = kani::any();
-    // map placement
+    let mut g = G {
+        present: [false; MAXN], v: [Val { cls: 0, data: 0 }; MAXN], w: [0; MAXN],
+        la: [(0, 0); MAXN], lm: [(0, 0); MAXN], ao: [255; MAXN], ao_n: 0, wo: [255; MAXN], wo_n: 0,
+        now, ttl, tti, cap: cfg.cap, has_ttl: cfg.ttl, has_exp, weigher: cfg.weigher, wt,
+        sk_words, sk_size, sk_inc: false, sk_hash: 0,
+    };
+    // values: weight class 0 for residents (concrete), payload symbolic
     let mut i = 0;
-    while i < cfg.n {
-        let k = if cfg.slots_rev { cfg.n - 1 - i } else { i };
-        c.cache.insert(Rc::new(k as u8), ValueEntry::new(v[k], w[k]));
-        i += 1;
-    }
-    // access-order deque: key i at LRU position i
-    let mut i = 0;
-    while i < cfg.n {
-        let key = i as u8;
-        let rc = c.cache_key_rc(&key);
-        let entry = c.cache.get_mut(&key).unwrap();
-        c.deques.push_back_ao(CacheRegion::MainProbation, KeyHashDate::new(rc, key as u64, None), entry);
-        c.entry_count += 1;
-        c.weighted_size += w[i] as u64;
-        i += 1;
-    }
-    St { c, w, v }
-}
-
-impl C {
-    /// the Rc<K> stored in the map for `key` (harness helper)
-    fn cache_key_rc(&self, key: &u8) -> Rc<u8> {
-        for (k, _) in self.cache.iter() {
-            if **k == *key { return Rc::clone(k); }
+    while i < n {
+        let d: u8 = kani::any();
+        g.v[i] = Val { cls: 0, data: d };
+        g.w[i] = g.weigh(i, g.v[i]);
+        g.present[i] = true;
+        if has_exp {
+            g.la[i] = if sym { any_t() } else { tc.la[i] };
+            g.lm[i] = if sym { any_t() } else { tc.lm[i] };
+            kani::assume(le(g.lm[i], g.la[i]) && le(g.la[i], now));
         }
-        unreachable!()
+        i += 1;
     }
+    // map placement (iteration order of the real map is arbitrary)
+    let mut i = 0;
+    while i < n {
+        let k = if cfg.slots_rev { n - 1 - i } else { i };
+        c.cache.insert(Rc::new(k as u8), ValueEntry::new(g.v[k], g.w[k]));
+        i += 1;
+    }
+    // access-order deque: key i at LRU position i, sorted by last_accessed
+    let mut i = 0;
+    while i < n {
+        let key = i as u8;
+        let rc = key_rc(&c, key);
+        let ts = if has_exp { Some(inst(g.la[i])) } else { None };
+        if has_exp && i > 0 { kani::assume(le(g.la[i - 1], g.la[i])); }
+        let entry = c.cache.get_mut(&key).unwrap();
+        c.deques.push_back_ao(CacheRegion::MainProbation, KeyHashDate::new(rc, S::h(key), ts), entry);
+        g.ao[i] = key;
+        c.entry_count += 1;
+        c.weighted_size += g.w[i] as u64;
+        i += 1;
+    }
+    g.ao_n = n;
+    // write-order deque (exists iff ttl), sorted by last_modified
+    if cfg.ttl {
+        let mut i = 0;
+        while i < n {
+            let k = cfg.wo[i];
+            let key = k as u8;
+            let rc = key_rc(&c, key);
+            if i > 0 { kani::assume(le(g.lm[cfg.wo[i - 1]], g.lm[k])); }
+            let entry = c.cache.get_mut(&key).unwrap();
+            c.deques.push_back_wo(KeyDate::new(rc, Some(inst(g.lm[k]))), entry);
+            g.wo[i] = key;
+            i += 1;
+        }
+        g.wo_n = n;
+    }
+    St { c, g }
 }
 
-/// Inv clauses 1-2 on the current state; returns the AO order as keys.
-pub(crate) fn check_inv(c: &C, tag_ok: &mut bool) -> ([u8; MAXN], usize) {
-    let (nodes, cnt, ok) = dq::walk::<KeyHashDate<u8>, MAXN>(&c.deques.probation);
-    let mut good = ok;
-    let mut order = [255u8; MAXN];
+/// the Rc<K> stored in the map for `key`
+fn key_rc<S: HK>(c: &C<S>, key: u8) -> Rc<u8> {
+    for (k, _) in c.cache.iter() {
+        if **k == key { return Rc::clone(k); }
+    }
+    unreachable!()
+}
+
+// ---------------------------------------------------------------- post-state vs reference model
+/// Tags: who is blamed when an entry expected present is gone (`lost`), an entry expected absent is
+/// there or has the wrong value (`stale`).
+pub(crate) struct Tags { pub lost: &'static str, pub stale: &'static str }
+
+macro_rules! chk {
+    ($cond:expr, $msg:expr) => { assert!($cond, $msg) };
+}
+
+/// Compare the real post-state with the expected ghost `e` and re-establish Inv.
+/// (Written so that every map lookup uses a CONCRETE key: a lookup with a key read back from a
+/// merged heap multiplies the formula by the number of slots.)
+pub(crate) fn compare<S: HK>(c: &C<S>, e: &G, nkeys: usize) {
+    let mut pao: [Option<NonNull<DeqNode<KeyHashDate<u8>>>>; MAXN] = [None; MAXN];
+    let mut pwo: [Option<NonNull<DeqNode<KeyDate<u8>>>>; MAXN] = [None; MAXN];
+    let mut cnt = 0u64;
     let mut sum = 0u64;
-    let mut i = 0;
-    while i < MAXN {
-        if let Some(n) = nodes[i] {
-            let e = unsafe { &n.as_ref().element };
-            let k = *e.key;
-            order[i] = k;
-            good &= e.hash == k as u64;
-            match c.cache.get(&k) {
+    // --- map contents: presence, value, weight, timestamps, node back-pointers
+    let mut k = 0;
+    while k < MAXN {
+        if k < nkeys {
+            let key = k as u8;
+            match c.cache.get(&key) {
+                None => {
+                    chk!(!e.present[k], "C03,C01: an entry the model keeps is gone (spurious loss)");
+                }
                 Some(ent) => {
+                    cnt += 1;
+                    sum += ent.policy_weight() as u64;
+                    chk!(e.present[k], "C01,C07,C04,C13: an entry the model removes/rejects is still in the map");
+                    chk!(ent.value == e.v[k], "C01: map holds a value other than the latest insert");
+                    chk!(ent.policy_weight() == e.w[k], "C10,C04: entry weight != weigher(key, current value)");
+                    if e.has_exp {
+                        chk!(ent.last_accessed() == Some(inst(e.la[k])), "C06,C15: last_accessed differs from the model (only insert/update/get-hit write it)");
+                    } else {
+                        chk!(ent.last_accessed().is_none(), "C06: last_accessed set without expiry");
+                    }
+                    if e.has_ttl {
+                        chk!(ent.last_modified() == Some(inst(e.lm[k])), "C05: last_modified differs from the model (only insert/update write it)");
+                    } else {
+                        chk!(ent.last_modified().is_none(), "C05: write-order node without ttl");
+                    }
                     match ent.access_order_q_node() {
                         Some(t) => {
                             let (p, tag) = t.decompose();
-                            good &= p == n && tag == CacheRegion::MainProbation as usize;
+                            chk!(tag == CacheRegion::MainProbation as usize, "C08: access-order pointer carries the wrong region tag");
+                            let el = unsafe { &p.as_ref().element };
+                            chk!(*el.key == key, "C08,C12: entry's access-order node carries another key");
+                            chk!(el.hash == S::h(key), "C13,C14: node carries a hash other than hash(key)");
+                            pao[k] = Some(p);
                         }
-                        None => good = false,
+                        None => chk!(false, "C08: resident without access-order node"),
                     }
-                    sum += ent.policy_weight() as u64;
+                    match ent.write_order_q_node() {
+                        Some(p) => {
+                            chk!(e.has_ttl, "C05,C08: write-order node without ttl");
+                            chk!(*unsafe { &p.as_ref().element }.key == key, "C08,C05: entry's write-order node carries another key");
+                            pwo[k] = Some(p);
+                        }
+                        None => chk!(!e.has_ttl, "C05: resident without write-order node although ttl is set"),
+                    }
                 }
-                None => good = false, // ghost node
             }
+        }
+        k += 1;
+    }
+    // --- counters (C10) against what is physically held
+    chk!(c.cache.len() as u64 == cnt, "C01: map holds a key outside the harness universe");
+    chk!(c.entry_count == cnt, "C10: entry_count != number of entries physically held");
+    chk!(c.weighted_size == sum, "C10: weighted_size != sum of the weights physically held");
+    chk!(cnt == e.count() && sum == e.total_weight(), "C10,C03: physical contents differ from the model");
+    // --- access-order deque: well-formed, exactly the residents' nodes, in the model's recency order
+    let (nodes, an, ok) = dq::walk::<KeyHashDate<u8>, MAXN>(&c.deques.probation);
+    chk!(ok, "C08: access-order deque is not a well-formed list");
+    chk!(an == e.ao_n, "C08,C11: access-order deque length != residents (ghost or missing node)");
+    let mut i = 0;
+    while i < MAXN {
+        if i < e.ao_n && i < an {
+            let k = e.ao[i] as usize;
+            chk!(k < MAXN && nodes[i] == pao[k], "C12: recency order differs from the model");
         }
         i += 1;
     }
-    good &= c.cache.len() == cnt;            // every map entry has a node (nodes map to distinct entries)
-    good &= dq::len(&c.deques.window) == 0 && dq::len(&c.deques.protected) == 0;
-    *tag_ok = good;
-    let _ = sum;
-    (order, cnt)
-}
-
-pub(crate) fn phys(c: &C) -> (u64, u64) {
-    let mut cnt = 0u64;
-    let mut sum = 0u64;
-    for (_, e) in c.cache.iter() {
-        cnt += 1;
-        sum += e.policy_weight() as u64;
+    chk!(dq::len(&c.deques.window) == 0 && dq::len(&c.deques.protected) == 0, "C08: unused deques not empty");
+    // --- write-order deque
+    let (wnodes, wn, wok) = dq::walk::<KeyDate<u8>, MAXN>(&c.deques.write_order);
+    chk!(wok, "C08: write-order deque is not a well-formed list");
+    chk!(wn == e.wo_n, "C08,C11,C05: write-order deque length != residents (iff ttl)");
+    let mut i = 0;
+    while i < MAXN {
+        if i < e.wo_n && i < wn {
+            let k = e.wo[i] as usize;
+            chk!(k < MAXN && wnodes[i] == pwo[k], "C05: write order differs from the model");
+        }
+        i += 1;
     }
-    (cnt, sum)
+    // --- popularity sketch: bit-identical, or exactly one real increment(hash)
+    let (words, size) = sk::snapshot4(&c.frequency_sketch);
+    let mut s2 = sk::rebuild4(e.sk_words, e.sk_size, &c.frequency_sketch);
+    if e.sk_inc { s2.increment(e.sk_hash); }
+    let (w2, z2) = sk::snapshot4(&s2);
+    chk!(words[0] == w2[0] && words[1] == w2[1] && words[2] == w2[2] && words[3] == w2[3] && size == z2,
+         "C14,C15: popularity sketch differs from the model (only get records, exactly once)");
+    std::mem::forget(s2);
+    // --- configuration untouched
+    chk!(c.max_capacity == e.cap, "C17: max_capacity changed");
+    kani::cover!(true, "end of comparison reached");
 }
 
-// ---------------------------------------------------------------- insert of a NEW key, no expiry
-fn insert_new(cfg: Cfg) {
-    let mut st = build(cfg);
-    let c = &mut st.c;
+// ================================================================================================
+// Operations
+// ================================================================================================
+
+/// get(k): k = resident j (j < n) or the absent key n. Purge is replaced (see `no_purge`).
+fn purge_ghost(e: &mut G, n: usize) {
+    let g = *e;
+    let mut i = 0;
+    while i < n { if g.expired(i) { e.remove(i); } i += 1; }
+}
+
+fn op_get<S: HK>(cfg: &Cfg, j: usize, real_purge: bool) {
+    let mut st = build::<S>(cfg);
+    let mut e = st.g;
+    let key = j as u8;
+    let got = st.c.get(&key).copied();
+    if real_purge { purge_ghost(&mut e, cfg.n); }
+    e.sk_inc = true;
+    e.sk_hash = S::h(key);
+    let live = j < cfg.n && !st.g.expired(j);
+    if live {
+        chk!(got == Some(st.g.v[j]), "C01,C03: get of a live resident does not return its latest value");
+        if e.has_exp { e.la[j] = e.now; }
+        e.touch_ao(j);
+    } else {
+        chk!(got.is_none(), "C01,C05,C06: get returns a value for an absent or expired key");
+    }
+    compare(&st.c, &e, cfg.n + 1);
+    let _ = live;
+    std::mem::forget(st);
+}
+
+fn op_contains<S: HK>(cfg: &Cfg, j: usize, real_purge: bool) {
+    let mut st = build::<S>(cfg);
+    let mut e = st.g;
+    let key = j as u8;
+    let got = st.c.contains_key(&key);
+    if real_purge { purge_ghost(&mut e, cfg.n); }
+    let live = j < cfg.n && !st.g.expired(j);
+    chk!(got == live, "C01,C03,C05,C06: contains_key != (resident and not expired)");
+    compare(&st.c, &e, cfg.n + 1); // frame: nothing at all changes (C15)
+
+    std::mem::forget(st);
+}
+
+/// iter(): yields exactly the live pairs, each once (model iterator visits each slot once).
+fn op_iter<S: HK>(cfg: &Cfg) {
+    let st = build::<S>(cfg);
+    let e = st.g;
+    let mut seen = [0u8; MAXN];
+    let mut extra = 0u8;
+    {
+        let mut it = st.c.iter();
+        let mut i = 0;
+        while i < MAXN + 1 {
+            if let Some((k, v)) = it.next() {
+                let k = *k as usize;
+                if k < cfg.n {
+                    seen[k] += 1;
+                    chk!(*v == st.g.v[k], "C01,C16: iteration yields a value other than the latest insert");
+                } else { extra += 1; }
+            }
+            i += 1;
+        }
+        chk!(it.next().is_none(), "C16: iterator does not terminate");
+    }
+    chk!(extra == 0, "C01,C16: iteration yields a key that is not resident");
+    let mut k = 0;
+    while k < MAXN {
+        if k < cfg.n {
+            let live = !st.g.expired(k);
+            chk!(seen[k] == if live { 1 } else { 0 }, "C16,C03,C05,C06: iteration must yield every live entry exactly once and no expired entry");
+        }
+        k += 1;
+    }
+    compare(&st.c, &e, cfg.n + 1); // pure observation (C15)
+    std::mem::forget(st);
+}
+
+/// insert(k, v): update of resident j (< n) or a new key n. `cls` = weight class of the new value
+/// (concrete), payload symbolic.
+fn op_insert<S: HK>(cfg: &Cfg, j: usize, cls: u8) {
+    let mut st = build::<S>(cfg);
+    let g = st.g;
+    let mut e = st.g;
     let n = cfg.n;
-    let newk = n as u8;
-    let newv: u8 = kani::any();
-    let wc = st.w[n];
-    let cap = c.max_capacity;
-    let ws0 = c.weighted_size;
-    // popularity as the implementation itself estimates it, read just before the call
-    let fc = c.frequency_sketch.frequency(newk as u64) as u32;
+    let key = j as u8;
+    let nv = Val { cls, data: kani::any() };
+    let wc = g.weigh(j, nv);
+    // popularity exactly as the implementation estimates it, read just before the call
+    let fc = st.c.frequency_sketch.frequency(S::h(key)) as u32;
     let mut f = [0u32; MAXN];
     let mut i = 0;
-    while i < n { f[i] = c.frequency_sketch.frequency(i as u64) as u32; i += 1; }
+    while i < n { f[i] = st.c.frequency_sketch.frequency(S::h(i as u8)) as u32; i += 1; }
 
-    c.insert(newk, newv);
+    st.c.insert(key, nv);
 
-    let mut inv_ok = false;
-    let (order, cnt) = check_inv(c, &mut inv_ok);
-    assert!(inv_ok, "C08:INV deques/map structural invariant after insert");
-    let (pc, ps) = phys(c);
-    assert!(c.entry_count == pc, "C10: entry_count == entries physically held (insert)");
-    assert!(c.weighted_size == ps, "C10: weighted_size == sum of resident weights (insert)");
-    let _ = (order, cnt, fc, f, cap, ws0, wc, newv);
-    kani::cover!(c.cache.get(&newk).is_some(), "admitted");
-    kani::cover!(c.cache.get(&newk).is_none(), "rejected");
-    std::mem::forget(st); // drop glue is the subject of the C11 family, not of this one
+    if j < n {
+        // update in place
+        e.v[j] = nv;
+        e.w[j] = wc;
+        if e.has_exp { e.la[j] = e.now; e.lm[j] = e.now; }
+        e.touch_ao(j);
+        e.touch_wo(j);
+    } else {
+        let ws = g.total_weight();
+        let fits = match g.cap { None => true, Some(cap) => ws + wc as u64 <= cap };
+        let mut admit = fits;
+        let mut nvict = 0usize;
+        if !fits {
+            let cap = g.cap.unwrap();
+            if wc as u64 > cap {
+                admit = false; // heavier than the whole cache: never retained (C04)
+            } else {
+                // shortest LRU prefix P with weight >= wc; admitted iff it exists and fc > sum freq(P)
+                let mut pw = 0u64;
+                let mut pf = 0u32;
+                let mut i = 0;
+                while i < n {
+                    if pw < wc as u64 { pw += g.w[i] as u64; pf += f[i]; nvict = i + 1; }
+                    i += 1;
+                }
+                admit = pw >= wc as u64 && fc > pf;
+                if !admit { nvict = 0; }
+            }
+        }
+        let mut i = 0;
+        while i < n { if i < nvict { e.remove(i); } i += 1; }
+        if admit {
+            e.present[j] = true;
+            e.v[j] = nv;
+            e.w[j] = wc;
+            e.la[j] = e.now;
+            e.lm[j] = e.now;
+            e.ao[e.ao_n] = key; e.ao_n += 1;
+            if e.has_ttl { e.wo[e.wo_n] = key; e.wo_n += 1; }
+        }
+        if fits { chk!(st.c.cache.get(&key).is_some(), "C03: a new key that fits in the remaining capacity must be retained"); }
+        if !fits && g.cap.unwrap() >= wc as u64 && wc > 0 {
+            kani::cover!(admit && nvict > 0, "admitted over victims");
+            kani::cover!(!admit, "newcomer rejected");
+        }
+    }
+    compare(&st.c, &e, n + 1);
+    // C04 directly on what is physically held
+    if let Some(cap) = g.cap {
+        if g.total_weight() <= cap && j >= n {
+            let mut sum = 0u64;
+            for (_, ent) in st.c.cache.iter() { sum += ent.policy_weight() as u64; }
+            chk!(sum <= cap, "C04: resident weight exceeds max_capacity after a fresh insert");
+        }
+    }
+    std::mem::forget(st);
 }
 
+fn op_invalidate<S: HK>(cfg: &Cfg, j: usize) {
+    let mut st = build::<S>(cfg);
+    let mut e = st.g;
+    let key = j as u8;
+    st.c.invalidate(&key);
+    chk!(st.c.cache.get(&key).is_none(), "C07: invalidated key still in the map");
+    if j < cfg.n { e.remove(j); }
+    compare(&st.c, &e, cfg.n + 1);
+    std::mem::forget(st);
+}
+
+fn op_invalidate_all<S: HK>(cfg: &Cfg) {
+    let mut st = build::<S>(cfg);
+    let mut e = st.g;
+    st.c.invalidate_all();
+    let mut i = 0;
+    while i < cfg.n { e.remove(i); i += 1; }
+    compare(&st.c, &e, cfg.n + 1);
+    std::mem::forget(st);
+}
+
+/// invalidate_entries_if(p): p(k, v) = bit (2k + (v.data & 1)) of a symbolic mask.
+fn op_invalidate_if<S: HK>(cfg: &Cfg, mask_in: Option<u8>) {
+    let mut st = build::<S>(cfg);
+    let mut e = st.g;
+    // quick tier: concrete mask over (key, payload parity) classes; thorough: symbolic mask
+    let mask: u8 = match mask_in { Some(m) => m, None => kani::any() };
+    st.c.invalidate_entries_if(move |k, v| (mask >> (2 * *k + (v.data & 1))) & 1 == 1);
+    let mut i = 0;
+    let mut removed = 0;
+    while i < cfg.n {
+        if (mask >> (2 * i as u8 + (st.g.v[i].data & 1))) & 1 == 1 { e.remove(i); removed += 1; }
+        i += 1;
+    }
+    compare(&st.c, &e, cfg.n + 1);
+    let _ = removed;
+    std::mem::forget(st);
+}
+
+/// evict_lru_entries() from a state whose weight exceeds the capacity (what a grown update leaves).
+/// `grow` = extra weight put on the MRU entry before the call (concrete).
+fn op_evict_lru<S: HK>(cfg: &Cfg, grow: u32) {
+    let mut st = build::<S>(cfg);
+    let n = cfg.n;
+    // a grown update: MRU entry's weight increased, counters follow (what handle_update does)
+    if n > 0 && grow > 0 {
+        let key = (n - 1) as u8;
+        st.c.cache.get_mut(&key).unwrap().set_policy_weight(st.g.w[n - 1] + grow);
+        st.c.weighted_size += grow as u64;
+        st.g.w[n - 1] += grow;
+    }
+    let g = st.g;
+    let mut e = st.g;
+    st.c.evict_lru_entries();
+    if let Some(cap) = g.cap {
+        let need = g.total_weight().saturating_sub(cap);
+        let mut freed = 0u64;
+        let mut i = 0;
+        while i < n {
+            if freed < need { freed += g.w[i] as u64; e.remove(i); }
+            i += 1;
+        }
+        compare(&st.c, &e, n + 1);
+        chk!(st.c.weighted_size <= cap || e.ao_n == 0, "C04: excess of a grown update is removed by the next operation");
+    } else {
+        compare(&st.c, &e, n + 1);
+    }
+    std::mem::forget(st);
+}
+
+/// evict_expired(now): removes exactly the expired residents (n <= batch), gives back their weight.
+fn op_evict_expired<S: HK>(cfg: &Cfg) {
+    let mut st = build::<S>(cfg);
+    let g = st.g;
+    let mut e = st.g;
+    let now = inst(g.now);
+    st.c.evict_expired(now);
+    let mut i = 0;
+    let mut removed = 0;
+    while i < cfg.n {
+        if g.expired(i) { e.remove(i); removed += 1; }
+        i += 1;
+    }
+    compare(&st.c, &e, cfg.n + 1);
+    let _ = removed;
+    std::mem::forget(st);
+}
+
+/// Replacement for Cache::evict_expired in the lookup/update "tail" harnesses: the purge is decided
+/// separately (op_evict_expired: Inv -> Inv, removes exactly the expired entries). Tails are run from
+/// states that may still CONTAIN expired entries, so "whether or not maintenance has run" is literal.
+pub(crate) fn no_purge<K, V, S>(_c: &mut Cache<K, V, S>, _now: Instant)
+where
+    K: Hash + Eq,
+    S: BuildHasher + Clone,
+{
+}
+
+// ================================================================================================
+// Instantiations
+// ================================================================================================
+const WO_ID: [usize; MAXN] = [0, 1, 2, 3];
+const WO_REV2: [usize; MAXN] = [1, 0, 2, 3];
+const WO_REV3: [usize; MAXN] = [2, 1, 0, 3];
+const WO_ROT3: [usize; MAXN] = [1, 2, 0, 3];
+/// weight table with distinct non-unit weights: class 0 (residents) and class 1 (updates/newcomers)
+const WT_A: [[u32; MAXN]; 2] = [[3, 5, 2, 4], [7, 1, 6, 9]];
+/// zero weights and a heavy one
+const WT_Z: [[u32; MAXN]; 2] = [[0, 4, 0, 3], [5, 0, 4, 0]];
+
+const fn cfg(n: usize, cap: Option<u64>, weigher: bool, wt: [[u32; MAXN]; 2], ttl: bool, tti: bool, wo: [usize; MAXN], slots_rev: bool) -> Cfg {
+    Cfg { n, cap, weigher, wt, ttl, tti, wo, slots_rev, tc: 0 }
+}
+const fn cfgt(n: usize, cap: Option<u64>, weigher: bool, wt: [[u32; MAXN]; 2], ttl: bool, tti: bool, wo: [usize; MAXN], slots_rev: bool, tc: usize) -> Cfg {
+    Cfg { n, cap, weigher, wt, ttl, tti, wo, slots_rev, tc }
+}
+
+macro_rules! uh {
+    ($name:ident, $unw:expr, $body:expr) => {
+        #[kani::proof]
+        #[kani::unwind($unw)]
+        #[kani::stub(Cache::evict_expired, no_purge)]
+        #[kani::stub(std::time::Instant::now, now_stub)]
+        fn $name() { $body }
+    };
+}
+macro_rules! uh_real_purge {
+    ($name:ident, $unw:expr, $body:expr) => {
+        #[kani::proof]
+        #[kani::unwind($unw)]
+        #[kani::stub(std::time::Instant::now, now_stub)]
+        fn $name() { $body }
+    };
+}
+
+// ---- no expiry, unit weights, capacity exactly full (admission decides) ----
+uh!(get_hit0_n2_full, 6, op_get::<IdH>(&cfg(2, Some(2), false, W1, false, false, WO_ID, false), 0, false));
+uh!(get_hit1_n2_full, 6, op_get::<IdH>(&cfg(2, Some(2), false, W1, false, false, WO_ID, true), 1, false));
+uh!(get_miss_n2_full, 6, op_get::<IdH>(&cfg(2, Some(2), false, W1, false, false, WO_ID, false), 2, false));
+uh!(contains_n2_full, 6, op_contains::<IdH>(&cfg(2, Some(2), false, W1, false, false, WO_ID, false), 1, false));
+uh!(insert_new_n2_full, 6, op_insert::<IdH>(&cfg(2, Some(2), false, W1, false, false, WO_ID, false), 2, 0));
+uh!(insert_new_n2_room, 6, op_insert::<IdH>(&cfg(2, Some(3), false, W1, false, false, WO_ID, true), 2, 0));
+uh!(insert_new_n2_nocap, 6, op_insert::<IdH>(&cfg(2, None, false, W1, false, false, WO_ID, false), 2, 0));
+uh!(insert_new_n0_cap0, 6, op_insert::<IdH>(&cfg(0, Some(0), false, W1, false, false, WO_ID, false), 0, 0));
+uh!(insert_upd0_n2_full, 6, op_insert::<IdH>(&cfg(2, Some(2), false, W1, false, false, WO_ID, false), 0, 0));
+uh!(insert_upd1_n2_full, 6, op_insert::<IdH>(&cfg(2, Some(2), false, W1, false, false, WO_ID, false), 1, 0));
+uh!(invalidate0_n2, 6, op_invalidate::<IdH>(&cfg(2, Some(2), false, W1, false, false, WO_ID, false), 0));
+uh!(invalidate_absent_n2, 6, op_invalidate::<IdH>(&cfg(2, Some(2), false, W1, false, false, WO_ID, false), 2));
+uh!(invalidate_all_n2, 6, op_invalidate_all::<IdH>(&cfg(2, Some(2), false, W1, false, false, WO_ID, false)));
+uh!(invalidate_if_n2_m1111, 6, op_invalidate_if::<IdH>(&cfg(2, Some(2), false, W1, false, false, WO_ID, false), Some(0b1111)));
+uh!(invalidate_if_n2_m0001, 6, op_invalidate_if::<IdH>(&cfg(2, Some(2), false, W1, false, false, WO_ID, false), Some(0b0001)));
+uh!(invalidate_if_n2_m0011, 6, op_invalidate_if::<IdH>(&cfg(2, Some(2), false, W1, false, false, WO_ID, false), Some(0b0011)));
+uh!(invalidate_if_n2_m1100, 6, op_invalidate_if::<IdH>(&cfg(2, Some(2), false, W1, false, false, WO_ID, false), Some(0b1100)));
+uh!(invalidate_if_n2_sym, 6, op_invalidate_if::<IdH>(&cfg(2, Some(2), false, W1, false, false, WO_ID, false), None));
+uh!(iter_n2, 6, op_iter::<IdH>(&cfg(2, Some(2), false, W1, false, false, WO_ID, true)));
+// colliding hasher: admission with identical estimates
+uh!(insert_new_n2_full_collide, 6, op_insert::<ConstH>(&cfg(2, Some(2), false, W1, false, false, WO_ID, false), 2, 0));
+
+// ---- weigher with distinct weights ----
+// residents 3+5 (+2), capacity 10: newcomer key n weighs 4 (cls 0) / 9 (cls 1)
+uh!(insert_new_n2_w_fits, 6, op_insert::<IdH>(&cfg(2, Some(10), true, WT_A, false, false, WO_ID, false), 2, 0));       // 8+2 fits
+uh!(insert_new_n2_w_admit, 6, op_insert::<IdH>(&cfg(2, Some(9), true, WT_A, false, false, WO_ID, false), 2, 1));       // 8+6: victims {0,1}
+uh!(insert_new_n2_w_toobig, 6, op_insert::<IdH>(&cfg(2, Some(5), true, WT_A, false, false, WO_ID, false), 2, 1));      // 6 > 5... fits? no: too big
+uh!(insert_new_n3_w_admit1, 7, op_insert::<IdH>(&cfg(3, Some(10), true, WT_A, false, false, WO_ID, false), 3, 0));     // 10+4: victim {0,1}? 3<4 -> {0,1}
+uh!(insert_upd_n2_w_grow, 6, op_insert::<IdH>(&cfg(2, Some(8), true, WT_A, false, false, WO_ID, false), 0, 1));        // 3 -> 7: over capacity afterwards
+uh!(insert_upd_n2_w_shrink, 6, op_insert::<IdH>(&cfg(2, Some(8), true, WT_A, false, false, WO_ID, false), 1, 1));      // 5 -> 1
+uh!(insert_new_n2_zero_w, 6, op_insert::<IdH>(&cfg(2, Some(4), true, WT_Z, false, false, WO_ID, false), 2, 0));        // residents 0+4 full; newcomer weight 0 fits
+uh!(insert_new_n2_zero_victim, 6, op_insert::<IdH>(&cfg(2, Some(4), true, WT_Z, false, false, WO_ID, false), 2, 1));   // newcomer 4: victims {0 (w0), 1 (w4)}
+uh!(invalidate1_n2_w, 6, op_invalidate::<IdH>(&cfg(2, Some(9), true, WT_A, false, false, WO_ID, false), 1));
+uh!(invalidate_if_n2_w_m1111, 6, op_invalidate_if::<IdH>(&cfg(2, Some(9), true, WT_A, false, false, WO_ID, false), Some(0b1111)));
+uh!(invalidate_if_n2_w_m0001, 6, op_invalidate_if::<IdH>(&cfg(2, Some(9), true, WT_A, false, false, WO_ID, false), Some(0b0001)));
+uh!(invalidate_if_n2_w_m0011, 6, op_invalidate_if::<IdH>(&cfg(2, Some(9), true, WT_A, false, false, WO_ID, false), Some(0b0011)));
+uh!(invalidate_if_n2_w_m1100, 6, op_invalidate_if::<IdH>(&cfg(2, Some(9), true, WT_A, false, false, WO_ID, false), Some(0b1100)));
+uh!(invalidate_if_n2_w_sym, 6, op_invalidate_if::<IdH>(&cfg(2, Some(9), true, WT_A, false, false, WO_ID, false), None));
+uh!(invalidate_all_n2_w, 6, op_invalidate_all::<IdH>(&cfg(2, Some(9), true, WT_A, false, false, WO_ID, false)));
+uh!(evict_lru_n2_grown, 6, op_evict_lru::<IdH>(&cfg(2, Some(8), true, WT_A, false, false, WO_ID, false), 4));         // 3+9=12 > 8: evict key 0 (3)... need 4 -> {0,1}
+uh!(evict_lru_n3_grown_exact, 7, op_evict_lru::<IdH>(&cfg(3, Some(10), true, WT_A, false, false, WO_ID, false), 3));   // 3+5+5=13: need 3 -> exactly {0}
+uh!(evict_lru_n2_within, 6, op_evict_lru::<IdH>(&cfg(2, Some(8), true, WT_A, false, false, WO_ID, false), 0));
+uh!(evict_lru_n2_zero, 6, op_evict_lru::<IdH>(&cfg(2, Some(4), true, WT_Z, false, false, WO_ID, false), 2));           // 0+6 > 4: victims {0 (w0), 1}
+
+// ---- expiry, quick tier: concrete time classes (TCS), symbolic values / sketch / masks ----
+uh!(get0_ttl_live, 6, op_get::<IdH>(&cfgt(2, Some(3), false, W1, true, false, WO_ID, false, 1), 0, false));
+uh!(get0_ttl_on_deadline, 6, op_get::<IdH>(&cfgt(2, Some(3), false, W1, true, false, WO_ID, false, 2), 0, false));
+uh!(get0_ttl_1ns_before, 6, op_get::<IdH>(&cfgt(2, Some(3), false, W1, true, true, WO_ID, false, 3), 0, false));
+uh!(get0_tti_on_deadline, 6, op_get::<IdH>(&cfgt(2, Some(3), false, W1, false, true, WO_ID, false, 4), 0, false));
+uh!(get0_tti_1ns_before, 6, op_get::<IdH>(&cfgt(2, Some(3), false, W1, true, true, WO_ID, false, 5), 0, false));
+uh!(get1_both_zero_dur, 6, op_get::<IdH>(&cfgt(2, None, false, W1, true, true, WO_ID, false, 6), 1, false));
+uh!(get1_both_max_dur, 6, op_get::<IdH>(&cfgt(3, None, false, W1, true, true, WO_ID, false, 7), 1, false));
+uh!(contains0_ttl_on_deadline, 6, op_contains::<IdH>(&cfgt(2, Some(3), false, W1, true, true, WO_ID, false, 2), 0, false));
+uh!(contains0_tti_on_deadline, 6, op_contains::<IdH>(&cfgt(2, Some(3), false, W1, false, true, WO_ID, false, 4), 0, false));
+uh!(contains0_tti_1ns_before, 6, op_contains::<IdH>(&cfgt(2, Some(3), false, W1, false, true, WO_ID, false, 5), 0, false));
+uh!(contains1_live, 6, op_contains::<IdH>(&cfgt(2, Some(3), false, W1, true, true, WO_ID, false, 1), 1, false));
+uh!(iter_ttl_on_deadline, 6, op_iter::<IdH>(&cfgt(2, Some(3), false, W1, true, false, WO_ID, true, 2)));
+uh!(iter_tti_on_deadline, 6, op_iter::<IdH>(&cfgt(2, Some(3), false, W1, true, true, WO_ID, false, 4)));
+uh!(iter_max_dur, 6, op_iter::<IdH>(&cfgt(3, None, false, W1, true, true, WO_ID, false, 7)));
+uh!(insert_upd0_both_expired, 6, op_insert::<IdH>(&cfgt(2, Some(3), false, W1, true, true, WO_ID, false, 2), 0, 0));
+uh!(insert_upd1_ttl_live, 6, op_insert::<IdH>(&cfgt(2, Some(3), false, W1, true, false, WO_ID, false, 1), 1, 0));
+uh!(insert_upd0_tti_live, 6, op_insert::<IdH>(&cfgt(2, Some(3), false, W1, false, true, WO_ID, false, 1), 0, 0));
+uh!(insert_new_ttl_room, 6, op_insert::<IdH>(&cfgt(2, Some(3), false, W1, true, false, WO_ID, false, 1), 2, 0));
+uh!(insert_new_ttl_full, 6, op_insert::<IdH>(&cfgt(2, Some(2), false, W1, true, false, WO_ID, false, 1), 2, 0));
+uh!(insert_new_tti_full, 6, op_insert::<IdH>(&cfgt(2, Some(2), false, W1, false, true, WO_ID, false, 1), 2, 0));
+uh!(insert_new_both_full, 6, op_insert::<IdH>(&cfgt(2, Some(2), false, W1, true, true, WO_ID, false, 3), 2, 0));
+uh!(invalidate0_both, 6, op_invalidate::<IdH>(&cfgt(2, Some(3), false, W1, true, true, WO_ID, false, 1), 0));
+uh!(invalidate1_ttl, 6, op_invalidate::<IdH>(&cfgt(2, Some(3), false, W1, true, false, WO_ID, false, 2), 1));
+uh!(invalidate_all_both, 6, op_invalidate_all::<IdH>(&cfgt(2, Some(3), false, W1, true, true, WO_ID, false, 1)));
+uh!(invalidate_if_ttl_m1111, 6, op_invalidate_if::<IdH>(&cfgt(2, Some(3), false, W1, true, false, WO_ID, false, 1), Some(0b1111)));
+uh!(invalidate_if_ttl_m0001, 6, op_invalidate_if::<IdH>(&cfgt(2, Some(3), false, W1, true, false, WO_ID, false, 1), Some(0b0001)));
+uh!(invalidate_if_ttl_m0011, 6, op_invalidate_if::<IdH>(&cfgt(2, Some(3), false, W1, true, false, WO_ID, false, 1), Some(0b0011)));
+uh!(invalidate_if_ttl_m1100, 6, op_invalidate_if::<IdH>(&cfgt(2, Some(3), false, W1, true, false, WO_ID, false, 1), Some(0b1100)));
+// the real purge on concrete classes, distinct weights
+uh_real_purge!(purge_ttl_on_deadline_w, 6, op_evict_expired::<IdH>(&cfgt(2, Some(9), true, WT_A, true, false, WO_ID, false, 2)));
+uh_real_purge!(purge_tti_on_deadline_w, 6, op_evict_expired::<IdH>(&cfgt(2, Some(9), true, WT_A, false, true, WO_ID, false, 4)));
+uh_real_purge!(purge_both_1ns_before_w, 6, op_evict_expired::<IdH>(&cfgt(2, Some(9), true, WT_A, true, true, WO_ID, false, 3)));
+uh_real_purge!(purge_both_zero_dur_w, 6, op_evict_expired::<IdH>(&cfgt(2, Some(9), true, WT_A, true, true, WO_ID, false, 6)));
+uh_real_purge!(purge_both_two_of_three_w, 6, op_evict_expired::<IdH>(&cfgt(3, Some(20), true, WT_A, true, true, WO_ID, false, 7)));
+// whole operations including the real purge
+uh_real_purge!(get0_ttl_on_deadline_realpurge, 6, op_get::<IdH>(&cfgt(2, Some(3), false, W1, true, true, WO_ID, false, 2), 0, true));
+uh_real_purge!(get1_tti_realpurge, 6, op_get::<IdH>(&cfgt(2, Some(3), false, W1, false, true, WO_ID, false, 4), 1, true));
+uh_real_purge!(contains0_ttl_realpurge, 6, op_contains::<IdH>(&cfgt(2, Some(3), false, W1, true, false, WO_ID, false, 2), 0, true));
+uh_real_purge!(contains1_max_dur_realpurge, 6, op_contains::<IdH>(&cfgt(3, None, false, W1, true, true, WO_ID, false, 7), 2, true));
+
+// ---- expiry, thorough tier: everything about time symbolic ----
+uh!(get_hit0_n2_ttl_sym, 6, op_get::<IdH>(&cfg(2, Some(3), false, W1, true, false, WO_REV2, false), 0, false));
+uh!(get_hit1_n2_tti_sym, 6, op_get::<IdH>(&cfg(2, Some(3), false, W1, false, true, WO_ID, false), 1, false));
+uh!(get_hit0_n2_both_sym, 6, op_get::<IdH>(&cfg(2, None, false, W1, true, true, WO_ID, false), 0, false));
+uh!(contains_n2_both_sym, 6, op_contains::<IdH>(&cfg(2, Some(3), false, W1, true, true, WO_REV2, false), 0, false));
+uh!(contains_n2_tti_sym, 6, op_contains::<IdH>(&cfg(2, Some(3), false, W1, false, true, WO_ID, false), 1, false));
+uh!(iter_n2_both_sym, 6, op_iter::<IdH>(&cfg(2, Some(3), false, W1, true, true, WO_REV2, false)));
+uh!(insert_upd0_n2_both_sym, 6, op_insert::<IdH>(&cfg(2, Some(3), false, W1, true, true, WO_ID, false), 0, 0));
+uh!(insert_upd1_n2_ttl_rev_sym, 6, op_insert::<IdH>(&cfg(2, Some(3), false, W1, true, false, WO_REV2, false), 1, 0));
+uh!(insert_new_n2_ttl_room_sym, 6, op_insert::<IdH>(&cfg(2, Some(3), false, W1, true, false, WO_REV2, false), 2, 0));
+uh!(insert_new_n2_ttl_full_sym, 6, op_insert::<IdH>(&cfg(2, Some(2), false, W1, true, false, WO_REV2, false), 2, 0));
+uh!(insert_new_n2_tti_full_sym, 6, op_insert::<IdH>(&cfg(2, Some(2), false, W1, false, true, WO_ID, false), 2, 0));
+uh!(invalidate0_n2_both_sym, 6, op_invalidate::<IdH>(&cfg(2, Some(3), false, W1, true, true, WO_REV2, false), 0));
+uh!(invalidate1_n2_ttl_sym, 6, op_invalidate::<IdH>(&cfg(2, Some(3), false, W1, true, false, WO_ID, false), 1));
+uh!(invalidate_all_n2_both_sym, 6, op_invalidate_all::<IdH>(&cfg(2, Some(3), false, W1, true, true, WO_ID, false)));
+uh!(invalidate_if_n2_ttl_sym, 6, op_invalidate_if::<IdH>(&cfg(2, Some(3), false, W1, true, false, WO_REV2, false), None));
+// the purge itself (real evict_expired), weights distinct so that count and weight cannot be confused
+uh_real_purge!(purge_n1_ttl_w_sym, 6, op_evict_expired::<IdH>(&cfg(1, Some(9), true, WT_A, true, false, WO_ID, false)));
+uh_real_purge!(purge_n1_tti_w_sym, 6, op_evict_expired::<IdH>(&cfg(1, Some(9), true, WT_A, false, true, WO_ID, false)));
+uh_real_purge!(purge_n2_ttl_w_sym, 6, op_evict_expired::<IdH>(&cfg(2, Some(9), true, WT_A, true, false, WO_REV2, false)));
+uh_real_purge!(purge_n2_tti_w_sym, 6, op_evict_expired::<IdH>(&cfg(2, Some(9), true, WT_A, false, true, WO_ID, false)));
+uh_real_purge!(purge_n2_both_w_sym, 6, op_evict_expired::<IdH>(&cfg(2, Some(9), true, WT_A, true, true, WO_REV2, false)));
+// whole operations with the real purge (integration of the split), one resident
+uh_real_purge!(get_n1_both_realpurge_sym, 6, op_get::<IdH>(&cfg(1, Some(2), false, W1, true, true, WO_ID, false), 0, true));
+uh_real_purge!(contains_n1_ttl_realpurge_sym, 6, op_contains::<IdH>(&cfg(1, Some(2), false, W1, true, false, WO_ID, false), 0, true));
+
+/// vacuity twin: builder + operation + comparison reach the end (must FAIL).
 #[kani::proof]
 #[kani::unwind(6)]
-fn insert_new_n2_cap() {
-    insert_new(Cfg { n: 2, cap: true, weigher: false, ttl: false, tti: false, wo_rev: false, slots_rev: false });
-}
-
-#[kani::proof]
-#[kani::unwind(4)]
-fn probe_a_insert_only() {
-    let cfg = Cfg { n: 2, cap: true, weigher: false, ttl: false, tti: false, wo_rev: false, slots_rev: false };
-    let mut st = build(cfg);
-    kani::assume(st.c.max_capacity.unwrap() >= st.c.weighted_size);
-    st.c.insert(2, 7);
-    assert!(st.c.entry_count <= 3);
+#[kani::stub(Cache::evict_expired, no_purge)]
+#[kani::stub(std::time::Instant::now, now_stub)]
+fn unsync_twin_must_fail() {
+    let c0 = cfg(2, Some(3), false, W1, true, true, WO_REV2, false);
+    let mut st = build::<IdH>(&c0);
+    let got = st.c.get(&0u8).copied();
+    assert!(got.is_none() && !got.is_none(), "VACUITY-TWIN: reached the end of the unsync harness");
     std::mem::forget(st);
 }
+
+// ================================================================================================
+// K1: the expiry predicates themselves, every time value symbolic at nanosecond resolution
+// ================================================================================================
+#[kani::proof]
+fn k1_is_expired_wo_iff_deadline_passed() {
+    let lm = any_t();
+    let now = any_t();
+    let d = any_dur();
+    let has_ts: bool = kani::any();
+    let has_ttl: bool = kani::any();
+    let node = DeqNode::new(KeyDate::new(Rc::new(0u8), if has_ts { Some(inst(lm)) } else { None }));
+    let ttl = if has_ttl { Some(dur(d)) } else { None };
+    let got = C::<IdH>::is_expired_entry_wo(&ttl, &node, inst(now));
+    let want = has_ts && has_ttl && le(t_add(lm, d), now);
+    assert!(got == want, "C05: is_expired_entry_wo <=> last_modified + ttl <= now");
+    kani::cover!(got && has_ts && t_add(lm, d) == now, "exactly on the deadline");
+    kani::cover!(!got && has_ts && has_ttl, "before the deadline");
+    std::mem::forget(node);
+}
+#[kani::proof]
+fn k1_is_expired_ao_iff_deadline_passed() {
+    let la = any_t();
+    let now = any_t();
+    let d = any_dur();
+    let has_ts: bool = kani::any();
+    let has_tti: bool = kani::any();
+    let node = DeqNode::new(KeyHashDate::new(Rc::new(0u8), 0, if has_ts { Some(inst(la)) } else { None }));
+    let tti = if has_tti { Some(dur(d)) } else { None };
+    let got = C::<IdH>::is_expired_entry_ao(&tti, &node, inst(now));
+    let want = has_ts && has_tti && le(t_add(la, d), now);
+    assert!(got == want, "C06: is_expired_entry_ao <=> last_accessed + tti <= now");
+    kani::cover!(got && has_ts && t_add(la, d) == now, "exactly on the deadline");
+    kani::cover!(!got && has_ts && has_tti, "before the deadline");
+    std::mem::forget(node);
+}
+/// the same predicates through a map entry (timestamps live in the entry's deque nodes)
 #[kani::proof]
 #[kani::unwind(6)]
-fn probe_b_build_only() {
-    let cfg = Cfg { n: 2, cap: true, weigher: false, ttl: false, tti: false, wo_rev: false, slots_rev: false };
-    let st = build(cfg);
-    let mut ok = false;
-    let _ = check_inv(&st.c, &mut ok);
-    assert!(ok);
-    std::mem::forget(st);
-}
-#[kani::proof]
-#[kani::unwind(4)]
-fn probe_c_insert_fits() {
-    let cfg = Cfg { n: 2, cap: true, weigher: false, ttl: false, tti: false, wo_rev: false, slots_rev: false };
-    let mut st = build(cfg);
-    kani::assume(st.c.max_capacity.unwrap() >= 3);
-    st.c.insert(2, 7);
-    let mut ok = false;
-    let _ = check_inv(&st.c, &mut ok);
-    assert!(ok);
-    std::mem::forget(st);
-}
-
-#[kani::proof]
-#[kani::unwind(5)]
-fn probe_d_concrete_cap_full() {
-    let cfg = Cfg { n: 2, cap: true, weigher: false, ttl: false, tti: false, wo_rev: false, slots_rev: false };
-    let mut st = build(cfg);
-    st.c.max_capacity = Some(2);
-    st.c.insert(2, 7);
-    let mut ok = false;
-    let _ = check_inv(&st.c, &mut ok);
-    assert!(ok);
-    kani::cover!(st.c.cache.get(&2).is_some(), "admitted");
-    kani::cover!(st.c.cache.get(&2).is_none(), "rejected");
-    std::mem::forget(st);
-}
-
-#[kani::proof]
-#[kani::unwind(5)]
-fn probe_e_concrete_cap_full_n3_weigher() {
-    let cfg = Cfg { n: 3, cap: true, weigher: true, ttl: false, tti: false, wo_rev: false, slots_rev: false };
-    let mut st = build(cfg);
-    kani::assume(st.w[0] == 3 && st.w[1] == 5 && st.w[2] == 2 && st.w[3] == 4);
-    st.c.max_capacity = Some(10);
-    st.c.insert(3, 7);
-    let mut ok = false;
-    let _ = check_inv(&st.c, &mut ok);
-    assert!(ok);
-    kani::cover!(st.c.cache.get(&3).is_some(), "admitted");
-    kani::cover!(st.c.cache.get(&3).is_none(), "rejected");
+#[kani::stub(std::time::Instant::now, now_stub)]
+fn k1_is_expired_entry_reads_the_entrys_own_nodes() {
+    let c0 = cfg(2, Some(3), false, W1, true, true, WO_REV2, false);
+    let st = build::<IdH>(&c0);
+    let j: usize = kani::any();
+    kani::assume(j < 2);
+    let key = j as u8;
+    let ent = st.c.cache.get(&key).unwrap();
+    let got = st.c.is_expired_entry(ent);
+    assert!(got == st.g.expired(j), "C05,C06: is_expired_entry(entry) <=> ttl or tti deadline of THAT entry passed at the current clock reading");
+    kani::cover!(got, "expired");
+    kani::cover!(!got, "live");
     std::mem::forget(st);
 }
